@@ -41,6 +41,32 @@ Experiments (field "exp" of a case)
   protect      ... also continues on the SAME tag object: authenticate(p) True, authenticate(q) not True,
                authenticate(p) True again (FeliCa; Type 2: the first one only, a NAK ends the activation).
 
+  hist         read_with_mac() several times through ONE tag object, with authentications (right / wrong password /
+               right password but a response modified) and plain writes in between: the k-th read of a selection is
+               modified (data only with the MAC bytes as sent / MAC only / both), or the response the tag sent in an
+               earlier step is delivered instead - whole, or only its data / only its MAC grafted into the genuine one;
+               recordings of the same session (outside the quantifier, observed) and of an earlier session (judged:
+               nothing may be returned - also when the authenticate() in between did NOT return True: then no
+               session key exists)
+  transcript   every response of authenticate() + read_with_mac() replaced by the recording of an earlier genuine
+               session, against a tag with another key and against the genuine tag (fresh challenge)
+  fresh        n authenticate() calls on one object and n after a new activation: the random challenges on the wire
+               (RC; RndA of Ultralight C, decrypted with the tag's key) are pairwise different; in addition os.urandom
+               of nfc.tag.tt3_sony and nfc.tag.tt2_nxp is wrapped for the whole shard to RECORD (not change) every
+               challenge drawn: no value twice within a shard
+  directed     (exp auth / auth-tamper / read-mac / protect with chosen inputs) keys with 00 / FF / white space at the
+               edges of the key halves, K1 = K2, all-00/01/FE/FF, PACK 0000 and PACK that looks like NAK / ACK,
+               passwords of 17..32 bytes (24 = length of a three-key 3DES key), non-ASCII str passwords, and - with a
+               forced challenge and tag data solved for it (felica_mac.solve_last_half) - MACs that begin / end in
+               00, FF, white space or are all zero, for the ID read that decides authenticate() and for read_with_mac;
+               RndA / RndB of the Ultralight C handshake with the same patterns
+  protect      ... with read_protect=True (Lite: documented refusal; Lite-S MC read restriction, NTAG21x / EV1 PROT
+               bit, Ultralight C AUTH1) and on Type 2 tags whose AUTH0 / PROT are set already (with and without
+               authenticating with the held key first)
+  read-mac     ... block selections at the edges: none, four (more than one command carries), the same block
+               several times, system blocks, MAC / MAC_A / CK / unknown numbers in the list (the tag model refuses
+               some of them: then nothing may be returned)
+
 Counterfeit tags / block count (mode "reblock"): every Read response of the FeliCa authentication exchange, of
 read_with_mac and of the NDEF read is also delivered as a *well-formed* response (LEN octet right, status 0000) that
 carries another sequence of blocks than requested: none, every proper prefix and suffix, blocks appended / inserted /
@@ -89,7 +115,14 @@ RULE = ("cases = (tag kind {FeliCa Lite, Lite-S, Lite-S/Link, NTAG210/212/213/21
         "authentication included; Lite-S sessions of 2-9 steps over {authenticate, write_with_mac, write_without_mac, "
         "ndef read/write, read_with_mac} x {this tag object, a second tag object of the same activation} x {answer to "
         "the write with MAC / STATE write lost} x WCNT counting rule of the model {mac, nv, all} (10 fixed sequences + "
-        "random ones); protect(p) then authenticate(p), authenticate(q), authenticate(p) on the same tag object. "
+        "random ones); protect(p) then authenticate(p), authenticate(q), authenticate(p) on the same tag object; "
+        "6 fixed + random histories of 5-12 steps over {authenticate right/wrong/tampered, read_with_mac of selection "
+        "S/T genuine | data bit | data bytes | MAC bit | both | recorded response of step k whole/data/MAC, plain "
+        "write}; whole-transcript replays x {other key, same key}; 2 x n authenticate() for challenge freshness + "
+        "every os.urandom draw of the shard; 17 edge keys x {held, one bit off in the edge byte}, 9 PWD/PACK edges, "
+        "password lengths {17,23,24,25,31,32}/{7,8,12,16}, 9 MAC patterns x {authenticate, read_with_mac} with forced "
+        "challenge, 6 RndA/RndB patterns; protect(read_protect=True) x prior {factory, issuer} x 5 families, 9 "
+        "locked Type 2 configurations; 17-21 edge block selections. "
         "A case is distinct by (experiment, tag model, password, modification) and non-trivial when the "
         "deciding call was reached (tag activated, set-up authentication succeeded, modification applied).")
 ASSUMPTIONS = [
@@ -114,6 +147,15 @@ ASSUMPTIONS = [
     "only when nothing of its own exchange was modified or lost",
     "a valid response of the *same* session for other blocks spliced in is outside the quantifier (the Lite MAC "
     "does not cover block numbers); observed and counted, not judged",
+    "a session is what the TAG sees (it begins with a write of the random challenge RC): a response recorded before "
+    "the last RC write belongs to an earlier session whatever authenticate() returned; a whole recorded response of "
+    "the same session (stale after a plain write) is not detectable by the scheme and not judged",
+    "directed challenges are handed to nfcpy through os.urandom of the tag modules (they are legal random values); "
+    "freshness is judged only on values nfcpy drew itself",
+    "Lite protect(read_protect=True) -> False is the documented answer; a non-ASCII str password may be refused "
+    "(UnicodeError); if protect() accepts it, the key the tag then holds is the reference",
+    "selections the tag model refuses (MAC/MAC_A/CK/unknown block in the list, more than 3 data blocks, read "
+    "restricted without authentication): any data returned is a violation",
 ]
 REQUIRED = ["sessions_lite", "sessions_lites", "sessions_ntag21x", "sessions_ulc", "auth_true_genuine",
             "auth_not_true_wrong_key", "authT_covered_rejected", "mac_read_untampered_ok", "mac_tamper_data_rejected",
@@ -144,7 +186,46 @@ REQUIRED = ["sessions_lite", "sessions_lites", "sessions_ntag21x", "sessions_ulc
             "order_auth_true_wcnt_moved_outside/lost-response", "order_wmac_ok", "order_wmac_refused_by_tag",
             "order_second_tag_object", "protect_same_object_auth_ok/lite", "protect_same_object_auth_ok/lites",
             "protect_same_object_auth_ok/ntag21x", "protect_same_object_auth_ok/ulc",
-            "protect_same_object_reauth_after_wrong_ok/lites"]
+            "protect_same_object_reauth_after_wrong_ok/lites",
+            # per family: sessions after activation, the success side of every oracle (a family whose sessions all
+            # fail would otherwise "hold" vacuously)
+            "sessions_ulev1", "auth_true_genuine/lite", "auth_true_genuine/lites", "auth_true_genuine/ntag21x",
+            "auth_true_genuine/ulev1", "auth_true_genuine/ulc", "auth_not_true_wrong_key/lite",
+            "auth_not_true_wrong_key/lites", "auth_not_true_wrong_key/ntag21x", "auth_not_true_wrong_key/ulev1",
+            "auth_not_true_wrong_key/ulc", "mac_read_untampered_ok/lite", "mac_read_untampered_ok/lites",
+            "mac_tamper_data_rejected/lite", "mac_tamper_data_rejected/lites", "mac_tamper_mac_rejected/lite",
+            "mac_tamper_mac_rejected/lites", "mac_replay_rejected/lite", "mac_replay_rejected/lites",
+            "ndef_read_untampered_ok/lite", "ndef_read_untampered_ok/lites", "ndef_tamper_covered_rejected/lite",
+            "ndef_tamper_covered_rejected/lites",
+            # several reads with MAC through one tag object: k-th read modified, recordings of the same / an earlier
+            # session, failed authenticate() in between
+            "hist_sessions/lite", "hist_sessions/lites", "hist_read_ok/lite", "hist_read_ok/lites",
+            "hist_repeated_read_ok/lite", "hist_repeated_read_ok/lites", "hist_repeated_read_tamper_rejected/lite",
+            "hist_repeated_read_tamper_rejected/lites", "hist_tamper_rejected/repeated-read/data",
+            "hist_tamper_rejected/repeated-read/mac", "hist_tamper_rejected/first-read/data",
+            "hist_replay_earlier_session_rejected/lite", "hist_replay_earlier_session_rejected/lites",
+            "hist_replay_after_failed_auth_reached/lite", "hist_replay_after_failed_auth_reached/lites",
+            # block selections at the edges
+            "mac_edge_selection_reached/zero-blocks", "mac_edge_selection_reached/too-many-blocks",
+            "mac_edge_selection_reached/mac-or-key-block-in-list", "mac_edge_selection_reached/repeated-block",
+            "mac_edge_selection_reached/system-block", "mac_edge_selection_reached/unknown-block",
+            # whole transcripts, freshness of the challenge
+            "transcript_replay_rejected/lite", "transcript_replay_rejected/lites", "transcript_replay_rejected/ulc",
+            "fresh_challenges_distinct/lite", "fresh_challenges_distinct/lites", "fresh_challenges_distinct/ulc",
+            "challenges_recorded/felica", "challenges_recorded/ulc",
+            # directed boundary values
+            "auth_true_class/edge-key", "auth_true_class/long-password", "auth_true_class/mac-pattern",
+            "auth_true_class/ulc-challenge", "auth_rejected_class/edge-key-near-miss",
+            "auth_rejected_class/long-password-tail-held", "mac_pattern_read_ok", "forced_challenge_used",
+            "mac_pattern_on_wire/yes",
+            # read protection, Type 2 tags that are protected already
+            "protect_read_protect_reached/lite", "protect_read_protect_reached/lites",
+            "protect_read_protect_reached/ntag21x", "protect_read_protect_reached/ulc", "protect_rp_pairs_ok/lites",
+            "protect_rp_pairs_ok/ntag21x", "protect_rp_pairs_ok/ulc", "protect_rp_other_password_rejected/lites",
+            "protect_rp_other_password_rejected/ntag21x", "protect_rp_other_password_rejected/ulc",
+            "protect_locked_reached/lite", "protect_locked_reached/lites", "protect_locked_reached/ntag21x",
+            "protect_locked_reached/ulc", "protect_pairs_ok_locked_key_nonempty_password/ntag21x",
+            "protect_pairs_ok_locked_key_nonempty_password/ulc"]
 
 NTAGS = ("ntag210", "ntag212", "ntag213", "ntag215", "ntag216")
 ULEV1 = ("ul11", "ul21")
@@ -162,11 +243,13 @@ def plan(tier, seed):
     if tier == "quick":
         base = dict(auth_felica=100, auth_ntag=500, auth_ulc=30, stripes=1, authT_rand=16, authT_ntag=24,
                     readmac=[2, 1, 1], readmac_rand=30, ndef=1, ndef_rand=6, wmac=10, wmac_stripes=1, protect=1,
-                    order=1, order_rand=6)
+                    order=1, order_rand=6, hist=1, hist_rand=2, edges=1, transcript=1, fresh=3, directed=1,
+                    protect_rp=1)
         return [dict(base) for _ in range(n)]
     base = dict(auth_felica=800, auth_ntag=5000, auth_ulc=300, stripes=12, authT_rand=200, authT_ntag=400,
                 readmac=[20, 10, 6], readmac_rand=400, ndef=10, ndef_rand=80, wmac=150, wmac_stripes=12, protect=8,
-                order=8, order_rand=100, timeout=3000)
+                order=8, order_rand=100, hist=8, hist_rand=60, edges=6, transcript=8, fresh=4, directed=6,
+                protect_rp=6, timeout=7000)
     return [dict(base) for _ in range(n)]
 
 
@@ -243,6 +326,9 @@ def build_model(ms):
             m.wcnt_counts = ms.get("wcnt_counts", "mac")
         if "mc" in ms:
             m.blocks[0x88] = bytearray(ms["mc"])
+        for n, d in ms.get("set", []):
+            # directed cases: content of single blocks (user blocks, the free half of the ID block)
+            m.blocks[int(n)] = bytearray(bytes(d))
         return m
     rng = random.Random(ms.get("uidseed", 1))
     m = t2sim.product_model(k, rng=rng, seed=ms.get("seed", 1))
@@ -255,8 +341,32 @@ def build_model(ms):
     else:
         c = m.prod["cfg"] * 4
         m.mem[c + 8:c + 14] = bytes(ms["key"])
+    if "auth0" in ms:
+        # a tag that is already protected: first page that needs authentication, PROT = also for reading
+        if k == "ulc":
+            m.mem[42 * 4] = int(ms["auth0"])
+            m.mem[43 * 4] = 0x00 if ms.get("prot") else 0x01
+        else:
+            c = m.prod["cfg"] * 4
+            m.mem[c + 3] = int(ms["auth0"])
+            m.mem[c + 4] = (m.mem[c + 4] & 0x7F) | (0x80 if ms.get("prot") else 0)
+    if ms.get("rndb"):
+        m.rng = _FixedRng(ms["rndb"], ms.get("seed", 1))
     m.power_cycle()
     return m
+
+
+class _FixedRng(object):
+    """random source of the Ultralight C model that first hands out chosen RndB bytes"""
+
+    def __init__(self, data, seed):
+        self.data = list(bytes(data))
+        self.r = random.Random(seed)
+
+    def randrange(self, *a):
+        if self.data and a == (256,):
+            return self.data.pop(0)
+        return self.r.randrange(*a)
 
 
 def model_key(model, kind):
@@ -352,6 +462,15 @@ def apply_action(act, rsp):
         a, b, n = act["swap"]
         if max(a, b) + n <= len(r):
             r[a:a + n], r[b:b + n] = r[b:b + n], r[a:a + n]
+    elif "graft" in act:
+        # part of another (recorded) Read response of the same size put into this one: "data" = all data blocks,
+        # the MAC stays as the tag sent it now; "mac" = the 8 MAC bytes, the data stay
+        w = bytes(act["with"])
+        if len(w) == len(r) and len(r) >= 29 and t3_blocks(rsp) is not None:
+            if act["graft"] == "data":
+                r[13:-16] = w[13:-16]
+            else:
+                r[-16:-8] = w[-16:-8]
     elif "replace" in act:
         r = bytearray(act["replace"])
     elif "reblock" in act:
@@ -605,18 +724,53 @@ def okind(res):
 
 
 class _OsShim(object):
-    """os.urandom of a nfc.tag module during --replay: hands out the recorded challenges, then the real thing"""
+    """os.urandom of the nfc.tag modules while challenges are FORCED (--replay of a witness, directed challenges):
+    hands out the given values (matched by length), then whatever was installed before (recorder / the real thing)"""
 
-    def __init__(self, values):
+    def __init__(self, values, under=os):
         self.values = [bytes(v) for v in values]
+        self.under = under
 
     def urandom(self, n):
-        if self.values and len(self.values[0]) == n:
-            return self.values.pop(0)
-        return os.urandom(n)
+        for i, v in enumerate(self.values):
+            if len(v) == n:
+                return self.values.pop(i)
+        return self.under.urandom(n)
 
     def __getattr__(self, name):
         return getattr(os, name)
+
+
+class _RecShim(object):
+    """os.urandom of a nfc.tag module for a whole shard: RECORDS every value nfcpy draws (the random challenge RC of
+    the FeliCa authentication, RndA of the Ultralight C handshake) and passes it on unchanged"""
+
+    def __init__(self):
+        self.values = []
+
+    def urandom(self, n):
+        v = os.urandom(n)
+        self.values.append(v)
+        return v
+
+    def __getattr__(self, name):
+        return getattr(os, name)
+
+
+def _challenge_modules():
+    import nfc.tag.tt2_nxp
+    import nfc.tag.tt3_sony
+    return {"felica": nfc.tag.tt3_sony, "ulc": nfc.tag.tt2_nxp}
+
+
+def install_recorders():
+    """-> {"felica": _RecShim, "ulc": _RecShim}; installed once per process"""
+    out = {}
+    for name, mod in _challenge_modules().items():
+        if not isinstance(mod.os, _RecShim):
+            mod.os = _RecShim()
+        out[name] = mod.os
+    return out
 
 
 @contextlib.contextmanager
@@ -624,13 +778,37 @@ def recorded_challenges(values, mode=None):
     if not values or mode == "replay":
         yield
         return
-    import nfc.tag.tt3_sony as mod
-    old = mod.os
-    mod.os = _OsShim(values)
+    mods = list(_challenge_modules().values())
+    old = [m.os for m in mods]
+    shim = None
+    for m, o in zip(mods, old):
+        # one list of values for both modules (16 bytes: FeliCa RC, 8 bytes: Ultralight C RndA)
+        if shim is None:
+            shim = _OsShim(values, o)
+            m.os = shim
+        else:
+            m.os = _OsShimView(shim, o)
     try:
         yield
     finally:
-        mod.os = old
+        for m, o in zip(mods, old):
+            m.os = o
+
+
+class _OsShimView(object):
+    """second module sharing the forced values of an _OsShim (its own fall-back underneath)"""
+
+    def __init__(self, shim, under):
+        self.shim, self.under = shim, under
+
+    def urandom(self, n):
+        for i, v in enumerate(self.shim.values):
+            if len(v) == n:
+                return self.shim.values.pop(i)
+        return self.under.urandom(n)
+
+    def __getattr__(self, name):
+        return getattr(os, name)
 
 
 class Sess(object):
@@ -651,8 +829,12 @@ class Sess(object):
         self.clf, self.dev, self.tag = tagdevice.activate(self.mitm, command_bound=COMMAND_BOUND)
         self.devs.append(self.dev)
         if self.R is not None:
-            self.R.count("sessions_" + self.fam)
-            self.R.count("sessions_kind_" + self.kind + ("_f2" if self.ms.get("ic") == 0xF2 else ""))
+            if self.tag is not None:
+                # (counted after activation: a session that never produced a tag object observed nothing)
+                self.R.count("sessions_" + self.fam)
+                self.R.count("sessions_kind_" + self.kind + ("_f2" if self.ms.get("ic") == 0xF2 else ""))
+            else:
+                self.R.count("sessions_not_activated/" + self.fam)
         return self.tag
 
     def challenges(self):
@@ -706,10 +888,20 @@ def x_auth(case, R):
     ok = okind(res)
     R.count("auth/%s/%s/%s/%s" % (fam, "holds" if h else "other-key", "str" if ptype == "str" else "bytes", ok))
     is_true = res == ("ret", True)
+    if case.get("challenge") and h and fam in ("lite", "lites", "ulc"):
+        # directed challenge: did nfcpy put it on the air (and did the tag answer with the intended MAC)?
+        R.count("forced_challenge_" + ("used" if wire_challenges(sess)[:1] == [bytes(case["challenge"][0])]
+                                       else "not_used"))
+        if case.get("target_mac") is not None:
+            macs = [r[29:37] for _n, c, r in sess.dev.log if isinstance(r, bytes) and role_of(sess.kind, c) == "id-read"]
+            R.count("mac_pattern_on_wire/" + ("yes" if macs[:1] == [bytes(case["target_mac"])] else "no"))
     if h:
         if is_true:
             R.count("auth_true_genuine")
+            R.count("auth_true_genuine/" + fam)
             R.count("auth_true_rel/" + rel)
+            if "/" in rel:
+                R.count("auth_true_class/" + rel.split("/")[0])
         elif ptype == "str":
             R.count("str_password_rejected/%s/authenticate/%s" % (fam, ok))
         else:
@@ -723,7 +915,11 @@ def x_auth(case, R):
                    % (sess.kind, rel), case)
         else:
             R.count("auth_not_true_wrong_key")
+            R.count("auth_not_true_wrong_key/" + fam)
             R.count("auth_rejected_rel/%s/%s" % (rel, ok))
+            R.count("auth_reject_kind/%s/%s" % (fam, ok))
+            if "/" in rel:
+                R.count("auth_rejected_class/" + rel.split("/")[0])
     post_auth_checks(R, sess, res, case)
 
 
@@ -847,6 +1043,18 @@ def expected_blocks(model, numbers):
     return bytes(out)
 
 
+def expected_or_none(model, numbers):
+    """content the model holds for a read_with_mac selection; None when the tag model refuses that Read (more blocks
+    than one command carries, MAC / MAC_A / CK in the list, unknown block, read restricted without authentication)"""
+    numbers = [int(n) for n in numbers]
+    if len(numbers) + 1 > getattr(model, "max_read", 4) or any(n > 0xFF or n < 0 for n in numbers):
+        return None
+    err, payload = model._read_lite(numbers + [0x81])
+    if err is not None:
+        return None
+    return bytes(payload[:-16])
+
+
 def setup_authenticated(case, R, sess):
     tag = sess.open()
     if tag is None or not check_tag_class(R, sess, case):
@@ -869,32 +1077,45 @@ def readmac_session(case, R, tampers, sess=None, cache=True):
         return sess
     if cache:
         sess.mitm.cache = {}
-    want = expected_blocks(sess.model, blocks)
+    want = expected_or_none(sess.model, blocks)
     sess.mitm.arm({})
     res = call(lambda: tag.read_with_mac(*blocks))
     R.case(("rmac", ms, blocks, None))
+    base_ok = False
     if res[0] == "ret" and isinstance(res[1], (bytes, bytearray)):
-        if bytes(res[1]) == want:
+        if want is None:
+            report(R, sess, "mac/returned-data-for-refused-read/%s" % fam,
+                   "read_with_mac%r returned %s although the tag model refuses to read this block list"
+                   % (tuple(blocks), bytes(res[1]).hex()), dict(case, tamper=None))
+        elif bytes(res[1]) == want:
+            base_ok = True
             R.count("mac_read_untampered_ok")
+            R.count("mac_read_untampered_ok/" + fam)
             R.count("mac_read_blocks_%d" % len(blocks))
         else:
             report(R, sess, "mac/returned-wrong-data/%s/untampered" % fam,
                    "read_with_mac%r returned %s, the model holds %s" % (tuple(blocks), bytes(res[1]).hex(), want.hex()),
                    dict(case, tamper=None))
     else:
+        # (the statement does not promise that a genuine response is accepted; counted per family, and the tamper
+        # verdict counters below then do not count: a rejection proves nothing when the genuine response is rejected too)
         R.count("mac_read_untampered_rejected/%s/%s" % (fam, okind(res)))
+        if want is None:
+            R.count("mac_read_refused_by_tag/%s/%s" % (fam, okind(res)))
     for act in tampers:
         sess.mitm.arm({0: act})
         res = call(lambda: tag.read_with_mac(*blocks))
         tr = sess.mitm.trace
         sess.mitm.disarm()
         judge_read(R, sess, dict(case, tamper=act, mode="reblock" if "reblock" in act else case.get("mode", "bit")),
-                   tr, res, want, blocks)
+                   tr, res, want, blocks, base_ok)
     sess.mitm.cache = None
     return sess
 
 
-def judge_read(R, sess, case, tr, res, want, blocks):
+def judge_read(R, sess, case, tr, res, want, blocks, base_ok=True):
+    """base_ok: the untampered read of the same selection in the same session returned the model's data (rejections of
+    modified responses count towards the REQUIRED counters only then; a returned value is judged in any case)"""
     fam, act = sess.fam, case["tamper"]
     applied = len(tr) > 0 and tr[0][1] is not None and tr[0][1] != tr[0][2]
     R.case(("rmac", case["ms"], blocks, act), nontrivial=applied)
@@ -912,7 +1133,7 @@ def judge_read(R, sess, case, tr, res, want, blocks):
         label = "block-count"
         R.count("mac_reblock/%s/%s/%s" % (fam, reblock_label(act, len(blocks) + 1),
                                           "returned-data" if returned else "rejected"))
-        if not returned:
+        if not returned and base_ok:
             R.count("mac_reblock_rejected")
             if not act["reblock"]:
                 R.count("mac_reblock_zero_blocks_rejected")
@@ -923,19 +1144,29 @@ def judge_read(R, sess, case, tr, res, want, blocks):
     R.count("mac/%s/%s/%s" % (fam, label if mode == "bit" else mode, "returned-data" if returned else "rejected"))
     if not returned:
         R.count("mac_reject_kind/%s" % okind(res))
-        if mode == "replay":
+        R.count("mac_reject_kind/%s/%s" % (fam, okind(res)))
+        if not base_ok:
+            R.count("mac_tamper_rejected_without_baseline/" + fam)
+        elif mode == "replay":
             R.count("mac_replay_rejected")
+            R.count("mac_replay_rejected/" + fam)
         elif mode == "reblock":
             pass
         elif "data" in parts:
             R.count("mac_tamper_data_rejected")
+            R.count("mac_tamper_data_rejected/" + fam)
         elif "mac" in parts:
             R.count("mac_tamper_mac_rejected")
+            R.count("mac_tamper_mac_rejected/" + fam)
         else:
             R.count("mac_tamper_uncovered_rejected")
         return
     got = bytes(res[1])
-    if got != want:
+    if want is None:
+        report(R, sess, "mac/returned-data-for-refused-read/%s" % fam,
+               "read_with_mac%r returned %s although the tag model refuses to read this block list (response "
+               "modified in %s, %s)" % (tuple(blocks), got.hex(), sorted(parts), mode), case)
+    elif got != want:
         sig = ("mac/accepted-replay/%s" % fam if mode == "replay" else
                "mac/accepted-tampered/%s/%s" % (fam, label if mode == "reblock" else
                                                 "data" if "data" in parts else label))
@@ -962,6 +1193,9 @@ def model_message(model):
     return data[:ln]
 
 
+LAST = {}          # out-of-band results of the last experiment call for the workload functions (never part of a verdict)
+
+
 def x_ndef_read(case, R):
     ms = case["ms"]
     sess = Sess(ms, R)
@@ -980,8 +1214,10 @@ def x_ndef_read(case, R):
     returned = res[0] == "ret" and res[1] is not None
     if act is None:
         R.case(("ndef", ms, None))
+        LAST["ndef_ok"] = returned and res[1] == want
         if returned and res[1] == want:
             R.count("ndef_read_untampered_ok")
+            R.count("ndef_read_untampered_ok/" + fam)
             R.max("ndef_message_len", len(want))
         elif returned:
             report(R, sess, "ndef/returned-wrong-data/%s/untampered" % fam,
@@ -1011,7 +1247,10 @@ def x_ndef_read(case, R):
     R.count("ndef/%s/%s/%s/%s" % (fam, role, label, "returned-data" if returned else "rejected"))
     if not returned:
         R.count("ndef_reject_kind/%s" % okind(res))
+        R.count("ndef_reject_kind/%s/%s" % (fam, okind(res)))
         R.count("ndef_tamper_covered_rejected" if covered else "ndef_tamper_uncovered_rejected")
+        if covered:
+            R.count("ndef_tamper_covered_rejected/" + fam)
     elif res[1] != want:
         report(R, sess, "ndef/accepted-tampered/%s/%s/%s" % (fam, role, label if "reblock" in act else
                                                              "data" if "data" in parts else label),
@@ -1092,6 +1331,8 @@ def x_write_mac(case, R):
                "write_with_mac returned normally but the tag model did not apply the write", case)
     elif success and model_applied:
         R.count("maca_write_ok" if act is None else "maca_write_ok_uncovered_tamper")
+        if act is None:
+            LAST["wmac_ok"] = True
         if act is None and case.get("pre") and pre_ok == len(case["pre"]):
             R.count("maca_write_ok_after_prior_writes")
             R.max("maca_writes_in_one_session", pre_ok + 1)
@@ -1117,7 +1358,9 @@ def x_protect(case, R):
     sess = Sess(ms, R)
     fam, kind = sess.fam, sess.kind
     tag = sess.open()
-    R.case(("protect", ms, repr(pw), ptype, case.get("pf", 0), prior, case.get("pre_auth")), nontrivial=tag is not None)
+    rp = bool(case.get("rp"))
+    R.case(("protect", ms, repr(pw), ptype, case.get("pf", 0), prior, case.get("pre_auth"), rp),
+           nontrivial=tag is not None)
     if tag is None or not check_tag_class(R, sess, case):
         return
     key = derive(fam, pw)
@@ -1125,9 +1368,17 @@ def x_protect(case, R):
     if case.get("pre_auth"):
         if call(lambda: tag.authenticate(bytes(ms["key"]))) != ("ret", True):
             R.count("setup_authenticate_failed")
-    res = call(lambda: tag.protect(pw_obj(pw, ptype), protect_from=int(case.get("pf", 0))))
+    if rp:
+        res = call(lambda: tag.protect(pw_obj(pw, ptype), read_protect=True, protect_from=int(case.get("pf", 0))))
+    else:
+        res = call(lambda: tag.protect(pw_obj(pw, ptype), protect_from=int(case.get("pf", 0))))
     ok = okind(res)
     R.count("protect/%s/%s/%s/len-%s/%s" % (fam, prior, ptype, "valid" if key is not None else "invalid", ok))
+    if rp:
+        R.count("protect_read_protect/%s/%s/%s" % (fam, prior, ok))
+        if key is not None:
+            R.count("protect_read_protect_reached/" + fam)
+    nonascii = ptype == "str" and any(ord(c) > 0x7F for c in pw_obj(pw, "str"))
     if key is None:
         if res == ("ret", True):
             report(R, sess, "protect/accepted-invalid-password/%s" % fam,
@@ -1138,6 +1389,7 @@ def x_protect(case, R):
         return
     if prior == "locked":
         R.count("protect_locked_reached")
+        R.count("protect_locked_reached/" + fam)
     if res != ("ret", True):
         if prior == "locked":
             R.count("protect_locked_not_true")
@@ -1146,6 +1398,14 @@ def x_protect(case, R):
         if ptype == "str" and fam != "lites":
             R.count("str_password_rejected/%s/protect/%s" % (fam, ok))
             return
+        if nonascii and res[0] == "exc" and isinstance(res[1], UnicodeError):
+            # a str that is not ASCII: which bytes it stands for is not documented; refusing it is not a wrong result
+            R.count("str_password_rejected/%s/protect-non-ascii/%s" % (fam, ok))
+            return
+        if rp and fam == "lite" and res == ("ret", False):
+            # "Read protection is not supported" (docstring of FelicaLite.protect): the documented answer
+            R.count("protect_read_protect_refused/lite")
+            return
         report(R, sess, "protect/failed/%s/%s/%s" % (fam, ptype, ok),
                "protect() of a %s %s tag (all blocks writable) with a valid %d byte %s password %s"
                % (prior, kind, len(pw_bytes(pw)), ptype, describe(res)), case)
@@ -1153,6 +1413,10 @@ def x_protect(case, R):
     cls = "%s_key_%s_password" % (prior, "empty" if empty else "nonempty")
     stored = model_key(sess.model, kind)
     stored_ok = canon(fam, stored) == canon(fam, key)
+    if nonascii:
+        # no documented key for such a password: what the tag now holds is the reference for "any other password"
+        key, stored_ok = stored, True
+        R.count("protect_non_ascii_str_accepted/" + fam)
     if not stored_ok:
         report(R, sess, "protect/wrong-key-stored/%s" % fam,
                "protect() returned True on a %s tag (%s), the tag model now holds %s, the key derived from the "
@@ -1201,6 +1465,23 @@ def x_protect(case, R):
         R.count("protect_pairs_ok_" + cls)
         R.count("protect_pairs_ok_%s/%s" % (cls, fam))
         post_auth_checks(R, sess, res, case)
+        if rp:
+            R.count("protect_rp_pairs_ok/" + fam)
+            restricted = read_restricted(sess.model, kind)
+            R.count("protect_rp_model_read_restricted/%s/%s" % (fam, "yes" if restricted else "no"))
+            if kind == "lites" and restricted:
+                # a read restricted block after the mutual authentication: what comes back is what the tag holds
+                n = restricted[0]
+                r2 = call(lambda: tag.read_with_mac(n))
+                if r2[0] == "ret" and isinstance(r2[1], (bytes, bytearray)):
+                    if bytes(r2[1]) == sess.model.get_block(n):
+                        R.count("protect_rp_read_with_mac_ok")
+                    else:
+                        report(R, sess, "mac/returned-wrong-data/lites/untampered",
+                               "read_with_mac(%d) of a read protected block after authenticate() returned %s, the "
+                               "model holds %s" % (n, bytes(r2[1]).hex(), sess.model.get_block(n).hex()), case)
+                else:
+                    R.count("protect_rp_read_with_mac_rejected/%s" % okind(r2))
     else:
         report(R, sess, "protect-auth/same-password-fails/%s/%s/%s" % (fam, ptype, okind(res)),
                "protect(p) returned True on a %s tag (%s); in a new session authenticate(p) with the same %s object %s"
@@ -1230,8 +1511,24 @@ def x_protect(case, R):
         else:
             R.count("protect_other_password_rejected")
             R.count("protect_other_rejected/%s/%s" % (rel, okind(res)))
+            if rp:
+                R.count("protect_rp_other_password_rejected/" + fam)
             if rel == "previous-key":
                 R.count("protect_previous_key_rejected")
+
+
+def read_restricted(model, kind):
+    """pages / blocks of the tag model that can be read only after authentication (what read_protect=True asks for)"""
+    if kind == "lites":
+        bits = model.mc[6] | model.mc[7] << 8
+        return [n for n in range(14) if bits >> n & 1]
+    if kind == "lite":
+        return []
+    m = model.mem
+    if kind == "ulc":
+        return list(range(m[42 * 4], 44)) if (m[43 * 4] & 1) == 0 else []
+    c = model.prod["cfg"] * 4
+    return list(range(m[c + 3], model.npages)) if m[c + 4] & 0x80 else []
 
 
 # ---- session order: reads, authentications, writes in one session on one tag object ---------------------
@@ -1593,13 +1890,353 @@ def x_order(case, R):
     R.case(key, nontrivial=judged > 0 or not felica)
 
 
+# ---- read_with_mac histories on one tag object ------------------------------------------------------------
+def hist_label(st):
+    if st["op"] == "auth":
+        return "A" + ("~" if st.get("act") else "+" if st.get("right") else "-")
+    if st["op"] == "wplain":
+        return "P"
+    a = st.get("act")
+    if not a:
+        return "R"
+    if "from" in a:
+        return "R<%s%d" % ({"data": "d", "mac": "m"}.get(a.get("graft"), ""), a["from"])
+    return "R*"
+
+
+def x_hist(case, R):
+    """several read_with_mac() calls (and authentications, plain writes) on ONE tag object, FeliCa Lite / Lite-S.
+    case["steps"] is a list over
+      {"op": "auth", "pw": p, "right": bool[, "act": {"at": i, ...}]}   tag.authenticate(p); with "act" response i of
+                                                         the exchange is modified (an authentication that fails on the way)
+      {"op": "rmac", "blocks": [...], "act": None | action}             tag.read_with_mac(*blocks); action as for
+                                                         Mitm.arm, or {"from": j}: the response the TAG sent in step j
+                                                         (an earlier rmac step, same or another selection, same or an
+                                                         earlier session) is delivered instead of the genuine one;
+                                                         {"from": j, "graft": "data" | "mac"}: only its data blocks /
+                                                         only its MAC put into the genuine response
+      {"op": "wplain", "block": n, "data": d}                           tag.write_without_mac(d, n): the tag's content
+                                                         moves on, a recorded response is then stale
+    A "session" is what the tag sees: it starts with a write of the random challenge.  Judged for every rmac step:
+      * nothing modified, data returned: it is what the model holds
+      * response modified in data or MAC (any k-th read of a selection, first or repeated): nothing is returned
+      * the recorded response of an EARLIER session delivered: nothing is returned - also when the authenticate()
+        in between did not return True (then there is no session key at all under which it could verify)
+      * whole recorded responses of the SAME session (the MAC covers neither a counter nor the block numbers) are
+        outside the quantifier: observed, not judged
+    Rejections count towards the REQUIRED counters only when a genuine read was accepted earlier in the same session."""
+    ms, steps = case["ms"], case["steps"]
+    sess = Sess(ms, R)
+    fam, kind = sess.fam, sess.kind
+    tag = sess.open()
+    key = ("hist", ms, steps)
+    if tag is None or not check_tag_class(R, sess, case):
+        R.case(key, nontrivial=False)
+        return
+    mitm, model = sess.mitm, sess.model
+    R.count("hist_sessions/" + fam)
+    R.seen("hist_sequences", " ".join(hist_label(st) for st in steps))
+    authed = False             # the last authenticate() that reached the tag returned True
+    ever_true = False
+    rec = {}                   # step -> (response as the tag sent it, RC block of the tag then, selection)
+    good = {}                  # selection -> genuine reads accepted in the current session
+    judged = 0
+
+    def viol(sig, what, i):
+        report(R, sess, sig, "step %d (%s) of [%s]: %s" % (i, hist_label(steps[i]),
+                                                          " ".join(hist_label(x) for x in steps), what), case)
+
+    for i, st in enumerate(steps):
+        op = st["op"]
+        if op == "auth":
+            rc0 = model.rc_block
+            act = st.get("act")
+            mitm.arm({int(act["at"]): act} if act else {})
+            res = call(lambda: tag.authenticate(pw_obj(st["pw"], "bytes")))
+            tr = mitm.trace
+            mitm.disarm()
+            is_true = res == ("ret", True)
+            modified = any(r is not None and r != o for _c, r, o in tr)
+            R.count("hist_auth/%s/%s/%s" % (fam, "modified" if modified else "quiet", okind(res)))
+            if not modified:
+                judged += 1
+                h = holds(ms, st["pw"])
+                if h and not is_true:
+                    viol("hist/auth-false-negative/%s/%s" % (fam, okind(res)), "the model holds the key of this "
+                         "password, nothing was modified, authenticate() %s" % describe(res), i)
+                elif is_true and not h:
+                    viol("hist/auth-false-positive/%s" % fam, "authenticate() returned True although the model "
+                         "holds another key", i)
+            elif is_true and any(touched(kind, c, r, o) & COVERED for c, r, o in tr if r is not None and o is not None):
+                viol("hist/auth-accepted-tampered/%s" % fam, "authenticate() returned True although a response of "
+                     "the exchange was modified in a MAC protected part", i)
+            if model.rc_block != rc0 or is_true:
+                # the tag received a new challenge: a new session for the tag, whatever the reader thinks
+                good = {}
+                authed = is_true
+                ever_true = ever_true or is_true
+                if not is_true and ever_true:
+                    R.count("hist_failed_authenticate_after_successful_one/" + fam)
+            if is_true:
+                post_auth_checks(R, sess, res, case)
+            continue
+        if op == "wplain":
+            res = call(lambda: tag.write_without_mac(bytes(st["data"]), int(st["block"])))
+            R.count("hist_wplain/%s" % okind(res))
+            continue
+        blocks = [int(b) for b in st["blocks"]]
+        sel = tuple(blocks)
+        want = expected_or_none(model, blocks)
+        act = st.get("act")
+        src = None
+        if act and "from" in act:
+            src = rec.get(int(act["from"]))
+            if src is None:
+                R.count("hist_replay_source_missing")
+                act = None
+            elif act.get("graft"):
+                act = {"graft": act["graft"], "with": src[0]}
+            else:
+                act = {"replace": src[0]}
+        mitm.arm({0: act} if act else {})
+        res = call(lambda: tag.read_with_mac(*blocks))
+        tr = mitm.trace
+        mitm.disarm()
+        returned = res[0] == "ret" and isinstance(res[1], (bytes, bytearray))
+        got = bytes(res[1]) if returned else None
+        genuine = tr[0][1] if tr else None
+        applied = bool(tr) and genuine is not None and tr[0][2] != genuine
+        if genuine is not None and t3_blocks(genuine) is not None:
+            rec[i] = (genuine, model.rc_block, sel)
+        nth = "repeated-read" if good.get(sel) else "first-read"
+        state = "authenticated" if authed else "after-failed-authenticate" if ever_true else "never-authenticated"
+        if not applied:
+            R.count("hist_read/%s/%s/%s/%s" % (fam, state, nth, "data" if returned else okind(res)))
+            if not tr:
+                R.count("hist_read_not_sent/%s/%s" % (state, okind(res)))      # RuntimeError: no session key
+                if src is not None and not st["act"].get("graft") and ever_true and not authed:
+                    # the recording of the earlier session was ready, the reader did not even ask the tag
+                    R.count("hist_replay_after_failed_auth_reached/" + fam)
+                    R.count("hist_replay_after_failed_auth_rejected/" + fam)
+                continue
+            judged += 1
+            if returned and want is None:
+                viol("mac/returned-data-for-refused-read/%s" % fam, "read_with_mac%r returned %s although the tag "
+                     "model refuses this block list" % (sel, got.hex()), i)
+            elif returned and got != want:
+                viol("mac/returned-wrong-data/%s/untampered" % fam, "read_with_mac%r returned %s, the model holds %s"
+                     % (sel, got.hex(), want.hex()), i)
+            elif returned:
+                if authed:
+                    good[sel] = good.get(sel, 0) + 1
+                    R.count("hist_read_ok/" + fam)
+                    if good[sel] > 1:
+                        R.count("hist_repeated_read_ok/" + fam)
+                        R.max("hist_reads_of_one_selection", good[sel])
+                else:
+                    R.count("hist_genuine_read_returned_without_true_authenticate/" + fam)     # observed
+            elif want is None:
+                R.count("hist_read_refused_by_tag/%s/%s" % (fam, okind(res)))
+            continue
+        # ---- a modified response was delivered
+        cmd, rsp, out = tr[0]
+        parts = touched(kind, cmd, rsp, out)
+        label = list(parts)[0] if len(parts) == 1 else "multi"
+        base_ok = bool(good)
+        if src is not None:
+            earlier = src[1] != model.rc_block
+            same_sel = src[2] == sel
+            how = {"data": "data-of-recording", "mac": "mac-of-recording"}.get(st["act"].get("graft"), "whole-response")
+            R.count("hist_replay/%s/%s/%s/%s/%s/%s" % (fam, state, "earlier-session" if earlier else "same-session",
+                                                       "same-selection" if same_sel else "other-selection", how,
+                                                       "returned-data" if returned else "rejected"))
+            if how == "whole-response" and not earlier:
+                continue                      # same session, whole recorded response: outside the quantifier
+            if how == "whole-response":
+                judged += 1
+                if not authed and ever_true:
+                    R.count("hist_replay_after_failed_auth_reached/" + fam)
+                if returned:
+                    if authed:
+                        sig = "mac/accepted-replay/%s/earlier-session" % fam
+                    else:
+                        sig = "mac/accepted-replay/%s/stale-session-key-after-failed-authenticate" % fam
+                    viol(sig, "read_with_mac%r returned %s for the response recorded in step %d of an earlier "
+                         "session (the tag has a new challenge since; last authenticate() %s); the model holds %s"
+                         % (sel, got.hex(), int(st["act"]["from"]), "returned True" if authed else "did not return "
+                            "True: there is no session key", want.hex() if want is not None else None), i)
+                elif base_ok and authed:
+                    R.count("hist_replay_earlier_session_rejected/" + fam)
+                elif not authed and ever_true:
+                    R.count("hist_replay_after_failed_auth_rejected/" + fam)
+                continue
+        judged += 1
+        R.count("hist_tamper/%s/%s/%s/%s/%s" % (fam, state, nth, label, "returned-data" if returned else "rejected"))
+        if not returned:
+            R.count("hist_reject_kind/%s/%s" % (fam, okind(res)))
+            if base_ok and authed and parts & COVERED:
+                R.count("hist_tamper_rejected/%s/%s" % (nth, "data" if "data" in parts else label))
+                if nth == "repeated-read":
+                    R.count("hist_repeated_read_tamper_rejected/" + fam)
+            continue
+        if want is None:
+            viol("mac/returned-data-for-refused-read/%s" % fam, "read_with_mac%r returned %s (response modified), the "
+                 "tag model refuses this block list" % (sel, got.hex()), i)
+        elif got != want or parts & COVERED:
+            sig = "mac/accepted-tampered/%s/%s/%s" % (fam, nth, "data" if "data" in parts else label)
+            if ever_true and not authed:
+                # no session key exists.  If what was delivered is, in data and MAC, a response of an earlier
+                # session (put together from a recording), this is the replay under the stale key; anything else
+                # that gets through in this state is named after the state
+                dm = (bytes(out[13:-16]), bytes(out[-16:-8]))
+                old = any(r[1] != model.rc_block and (bytes(r[0][13:-16]), bytes(r[0][-16:-8])) == dm
+                          for r in rec.values())
+                sig = ("mac/accepted-replay/%s/stale-session-key-after-failed-authenticate" % fam if old else
+                       "mac/accepted-tampered/%s/after-failed-authenticate/%s" % (fam, label))
+            viol(sig, "read_with_mac%r returned %s although the response was modified in %s (%s of this selection in "
+                 "the session, %s); the model holds %s" % (sel, got.hex(), sorted(parts), nth, state, want.hex()), i)
+        else:
+            R.count("hist_tamper_uncovered_accepted_correct_data")
+    R.case(key, nontrivial=judged > 0)
+
+
+# ---- the whole transcript of an earlier session played again -------------------------------------------------
+def x_transcript(case, R):
+    """a counterfeit: EVERY response is the one recorded in an earlier, genuine session (case["record"], in command
+    order) - against a tag that holds another key or the same key; the reader draws a fresh challenge.
+    authenticate() must not return True, read_with_mac() must not return data.  NTAG21x / Ultralight EV1 send
+    password and PACK in plain text, a recording answers every later authentication: observed, not judged."""
+    ms, pw, record = case["ms"], case["pw"], [bytes(r) for r in case["record"]]
+    sess = Sess(ms, R)
+    fam = sess.fam
+    tag = sess.open()
+    key = ("transcript", ms, repr(pw), case.get("blocks"), len(record))
+    if tag is None or not check_tag_class(R, sess, case):
+        R.case(key, nontrivial=False)
+        return
+    sess.mitm.arm({i: {"replace": r} for i, r in enumerate(record)})
+    res = call(lambda: tag.authenticate(pw_bytes(pw)))
+    rd = None
+    if fam in ("lite", "lites") and case.get("blocks") is not None:
+        rd = call(lambda: tag.read_with_mac(*[int(b) for b in case["blocks"]]))
+    tr = sess.mitm.trace
+    sess.mitm.disarm()
+    applied = any(r is not None and r != o for _c, r, o in tr)
+    R.case(key, nontrivial=applied)
+    who = "other-key" if not holds(ms, pw) else "same-key"
+    is_true = res == ("ret", True)
+    R.count("transcript/%s/%s/%s" % (fam, who, "accepted" if is_true else okind(res)))
+    if not applied:
+        R.count("transcript_not_applied")
+        return
+    if fam in ("ntag21x", "ulev1"):
+        R.count("transcript_plaintext_scheme_observed/%s/%s" % (fam, "accepted" if is_true else "rejected"))
+        return
+    if is_true:
+        report(R, sess, "auth/accepted-replay/%s/full-transcript" % fam,
+               "authenticate() returned True against a %s tag although every response was the recording of an earlier "
+               "session (another challenge)" % who, case)
+    else:
+        R.count("transcript_replay_rejected/" + fam)
+    if rd is not None:
+        if rd[0] == "ret" and isinstance(rd[1], (bytes, bytearray)):
+            report(R, sess, "mac/accepted-replay/%s/full-transcript" % fam,
+                   "read_with_mac returned %s from the recording of an earlier session (authenticate() %s)"
+                   % (bytes(rd[1]).hex(), describe(res)), case)
+        else:
+            R.count("transcript_replay_read_rejected/%s/%s" % (fam, okind(rd)))
+    post_auth_checks(R, sess, res, case)
+
+
+# ---- freshness of the random challenge -------------------------------------------------------------------
+def wire_challenges(sess):
+    """the challenges nfcpy put on the air in this Sess, in order (FeliCa: RC block writes; Ultralight C: RndA from
+    the AF command, decrypted with the key the model holds - only meaningful when nfcpy used that key)"""
+    if sess.kind in ("lite", "lites"):
+        return sess.challenges()
+    out = []
+    if sess.kind == "ulc":
+        from pyDes import triple_des, CBC
+        key = model_key(sess.model, "ulc")
+        for dev in sess.devs:
+            prev = None
+            for _n, cmd, rsp in dev.log:
+                if cmd and cmd[0] == 0xAF and len(cmd) == 17 and isinstance(prev, bytes) and len(prev) == 9:
+                    out.append(bytes(triple_des(key, CBC, prev[1:9]).decrypt(bytes(cmd[1:])))[0:8])
+                prev = rsp if isinstance(rsp, bytes) and cmd and cmd[0] == 0x1A else None
+    return out
+
+
+def x_fresh(case, R):
+    """case["n"] authenticate() calls through one tag object, the same number after a new activation of the same tag:
+    the random challenges (taken from the wire) are pairwise different"""
+    ms, pw, n = case["ms"], case["pw"], int(case.get("n", 3))
+    recs = install_recorders()
+    drawn0 = {k: len(v.values) for k, v in recs.items()}
+    sess = Sess(ms, R)
+    fam = sess.fam
+    marks = []
+    for act in range(2):
+        tag = sess.open()
+        if tag is None or not check_tag_class(R, sess, case):
+            R.case(("fresh", ms, n), nontrivial=False)
+            return
+        for _ in range(n):
+            res = call(lambda: tag.authenticate(pw_bytes(pw)))
+            R.count("fresh_auth/%s/%s" % (fam, okind(res)))
+        marks.append(len(wire_challenges(sess)))
+    ch = wire_challenges(sess)
+    R.case(("fresh", ms, n), nontrivial=len(ch) >= 2)
+    R.count("fresh_challenges_on_wire/" + fam, len(ch))
+    drawn = sum(len(v.values) - drawn0[k] for k, v in recs.items())
+    R.count("fresh_challenges_drawn/" + fam, drawn)
+    if len(ch) < 2:
+        return
+    first = {}
+    rep_same = rep_across = False
+    for i, c in enumerate(ch):
+        if c in first:
+            if (i < marks[0]) == (first[c] < marks[0]):
+                rep_same = True
+            else:
+                rep_across = True
+        else:
+            first[c] = i
+    if rep_same or rep_across:
+        report(R, None, "auth/challenge-repeated/%s/%s" % (fam, "same-tag-object" if rep_same else "new-activation"),
+               "%d authenticate() calls sent only %d different random challenges (%s)"
+               % (len(ch), len(first), ", ".join(c.hex() for c in ch[:4])), case)
+    else:
+        R.count("fresh_challenges_distinct/" + fam)
+    if len(ch) != drawn:
+        R.count("fresh_wire_vs_drawn_differ/" + fam)
+
+
+def shard_freshness(R, recs):
+    """end of a shard: everything nfcpy drew from os.urandom for a challenge in this process (forced challenges of
+    directed cases are not among them) is pairwise different"""
+    for name, rec in sorted(recs.items()):
+        vals = rec.values
+        R.count("challenges_recorded/" + name, len(vals))
+        R.count("challenges_recorded_distinct/" + name, len(set(vals)))
+        if len(set(vals)) < len(vals):
+            kind = "lite" if name == "felica" else "ulc"
+            fam = family(kind)
+            ms = ({"kind": kind, "key": FACTORY[fam], "salt": 1, "msg": b"", "ndef": True} if name == "felica"
+                  else {"kind": kind, "key": FACTORY[fam], "uidseed": 1, "seed": 1})
+            R.violation("auth/challenge-repeated/%s/within-shard" % name,
+                        "%d random challenges drawn in this shard, only %d different" % (len(vals), len(set(vals))),
+                        {"exp": "fresh", "ms": ms, "pw": b"", "n": 4})
+
+
 EXPERIMENTS = {"auth": x_auth, "auth-tamper": x_auth_tamper, "read-mac": x_read_mac, "ndef-read": x_ndef_read,
-               "write-mac": x_write_mac, "protect": x_protect, "order": x_order}
+               "write-mac": x_write_mac, "protect": x_protect, "order": x_order, "hist": x_hist,
+               "transcript": x_transcript, "fresh": x_fresh}
 
 
 def evaluate(case, R):
     try:
-        if case["exp"] in ("auth", "auth-tamper", "protect", "order"):
+        if case["exp"] in ("auth", "auth-tamper", "protect", "order", "hist", "transcript"):
             with recorded_challenges(case.get("challenge"), case.get("mode")):
                 return EXPERIMENTS[case["exp"]](case, R)
         return EXPERIMENTS[case["exp"]](case, R)
@@ -1966,6 +2603,10 @@ def w_ndef(R, rng, desc):
         tr = x_ndef_read(dict(base, tamper=None), R)
         if not tr:
             continue
+        if not LAST.get("ndef_ok"):
+            # the genuine read of this tag was not accepted: rejections of modified reads would prove nothing
+            R.count("ndef_tamper_skipped_without_baseline/" + kind)
+            continue
         R.max("ndef_read_commands", len(tr))
         pos = [(i, b) for i, t in enumerate(tr) if t[1] is not None for b in range(len(t[1]) * 8)]
         R.max("ndef_read_response_bits", len(pos))
@@ -2011,8 +2652,13 @@ def w_write_mac(R, rng, desc):
             ms["wcnt"] = rng.choice([ms["wcnt"], 0xFE, 0xFFFE, 0x01FFFD])
             case["pre"] = [[rng.choice([case["block"], rng.randrange(0, 14)]), rng.randbytes(16)]
                            for _ in range(rng.randrange(1, 4))]
+        LAST["wmac_ok"] = False
         tr = x_write_mac(case, R)
         if not tr or i >= desc["wmac_stripes"]:
+            continue
+        if not LAST.get("wmac_ok"):
+            # the genuine write was not accepted: rejections of modified exchanges would prove nothing
+            R.count("maca_tamper_skipped_without_baseline")
             continue
         pos = [(k, b) for k, t in enumerate(tr) if t[1] is not None for b in range(len(t[1]) * 8)]
         R.max("write_mac_response_bits", len(pos))
@@ -2288,7 +2934,399 @@ def order_wcnt_session(R, rng, pattern, wcnt_rule):
               "steps": order_steps(rng, pattern, "lites", pw, msg, rule)}, R)
 
 
+# ---- read_with_mac histories -------------------------------------------------------------------------------
+# A+ / A- authenticate(right / wrong password); A~ right password, MAC of the ID read modified (fails on the way);
+# R read_with_mac of selection S, Rt of selection T; suffix :d one data bit, :D several data bytes (MAC bytes as sent),
+# :m one MAC bit, :x data and MAC; <k whole response recorded in step k delivered, <dk / <mk only its data / its MAC;
+# P plain write to a block of S (the recorded responses become stale)
+HIST_PATTERNS = [
+    "A+ R R:d R:m R:x R R:D P R R<1 R<d1 R<m1",          # k-th read of one selection modified, stale data grafted
+    "A+ R R R R:D Rt Rt:d R:m R R:d",                       # modification only at the 4th / 5th read
+    "A+ R Rt P A+ R R<1 Rt<2 R<2 Rt R<5",                   # recordings of the earlier session, same and other selection
+    "A+ R P A- R R<1 A+ R R<1",                             # stale session key: failed authenticate(), then the recording
+    "A+ R P A~ R<1 R A+ R R<1",                             # ... authentication that fails because of a modification
+    "R A- R A+ R R:d A+ R:m R R:D",                         # no session key yet; first read of a session modified
+]
+
+
+def hist_selection(rng, kind, n=None):
+    n = n or rng.choice([1, 1, 2, 2, 3])
+    if rng.random() < 0.15:
+        b = rng.randrange(1, 14)
+        return [b] * n                                        # the same block several times
+    return [rng.randrange(1, 14) for _ in range(n)]
+
+
+def hist_steps(rng, pattern, kind, pw):
+    S = hist_selection(rng, kind)
+    while True:
+        T = hist_selection(rng, kind)
+        if T != S:
+            break
+    steps = []
+    for tok in pattern.split():
+        if tok[0] == "A":
+            if tok == "A-":
+                steps.append({"op": "auth", "pw": other_key(rng, kind, derive(kind, pw))[0], "right": False})
+            else:
+                st = {"op": "auth", "pw": pw, "right": True}
+                if tok == "A~":
+                    st["act"] = {"at": 1, "bit": 29 * 8 + rng.randrange(64)}
+                steps.append(st)
+            continue
+        if tok == "P":
+            steps.append({"op": "wplain", "block": rng.choice(S), "data": rng.randbytes(16)})
+            continue
+        sel = T if tok.startswith("Rt") else S
+        rest = tok[2:] if tok.startswith("Rt") else tok[1:]
+        st = {"op": "rmac", "blocks": sel, "act": None}
+        nd = 16 * len(sel)
+        if rest.startswith("<"):
+            graft = {"d": "data", "m": "mac"}.get(rest[1])
+            st["act"] = {"from": int(rest[2:] if graft else rest[1:])}
+            if graft:
+                st["act"]["graft"] = graft
+        elif rest == ":d":
+            st["act"] = {"bit": 13 * 8 + rng.randrange(nd * 8)}
+        elif rest == ":m":
+            st["act"] = {"bit": (13 + nd) * 8 + rng.randrange(64)}
+        elif rest == ":D":
+            n = rng.randrange(1, min(9, nd) + 1)
+            st["act"] = {"xor": [13 + rng.randrange(nd - n + 1), bytes(rng.randrange(1, 256) for _ in range(n))]}
+        elif rest == ":x":
+            st["act"] = {"xor": [13 + nd - 2, bytes(rng.randrange(1, 256) for _ in range(4))]}
+        steps.append(st)
+    return steps
+
+
+def w_hist(R, rng, desc):
+    shard = desc["shard"]
+    for rep in range(desc.get("hist", 1)):
+        for k, pattern in enumerate(HIST_PATTERNS):
+            # the stale-session-key sequences on both kinds, the others alternating
+            kinds = ("lite", "lites") if k in (3,) else (("lite", "lites")[(k + shard + rep) % 2],)
+            for kind in kinds:
+                pw = gen_password(rng, kind, "bytes", rng.choice([0, 16, 16, 24]))
+                ms = t3_spec(rng, kind, derive(kind, pw), msg=rng.randbytes(rng.choice([0, 20, 60])), ndef=True)
+                evaluate({"exp": "hist", "ms": ms, "pw": pw, "steps": hist_steps(rng, pattern, kind, pw)}, R)
+    for _ in range(desc.get("hist_rand", 2)):
+        kind = rng.choice(("lite", "lites"))
+        toks, nreads = ["A+"], []
+        for i in range(1, rng.randrange(5, 12)):
+            c = rng.random()
+            if c < 0.12:
+                toks.append(rng.choice(["A+", "A+", "A-", "A~"]))
+            elif c < 0.2:
+                toks.append("P")
+            else:
+                sel = rng.choice(["R", "R", "Rt"])
+                mod = rng.choice(["", "", ":d", ":D", ":m", ":x", "<"])
+                if mod == "<":
+                    mod = ("<%s%d" % (rng.choice(["", "", "d", "m"]), rng.choice(nreads))) if nreads else ""
+                toks.append(sel + mod)
+                nreads.append(i)
+        pw = gen_password(rng, kind, "bytes", rng.choice([0, 16, 16, 24]))
+        ms = t3_spec(rng, kind, derive(kind, pw), msg=rng.randbytes(rng.choice([0, 20, 60])), ndef=True)
+        evaluate({"exp": "hist", "ms": ms, "pw": pw, "steps": hist_steps(rng, " ".join(toks), kind, pw)}, R)
+
+
+# ---- block selections at the edges -----------------------------------------------------------------------
+def edge_selections(rng, kind):
+    a, b = rng.randrange(1, 14), rng.randrange(1, 14)
+    sels = [[], [a, b, a, b], [a, a], [b, b, b], [0x81], [a, 0x81], [0x87], [0x91], [a, 0x91], [0x82], [0x80], [0x88],
+            [0, 0x82, 14], [0x83, 0x84], [0x85, 0x86], [0xFF], [0x0F]]
+    if kind == "lites":
+        sels += [[0x90], [0x92], [a, 0x90, 0x92], [0xA0]]
+    return sels
+
+
+def w_read_edges(R, rng, desc):
+    """read_with_mac with no block at all, with more blocks than one command carries, with the same block several
+    times, with system blocks and with MAC / MAC_A / CK in the list: genuine and with a data bit / a MAC bit modified"""
+    kind = ("lite", "lites")[desc["shard"] % 2]
+    for rep in range(desc.get("edges", 1)):
+        if rep:
+            kind = rng.choice(("lite", "lites"))
+        for sel in edge_selections(rng, kind):
+            pw = gen_password(rng, kind, "bytes", rng.choice([0, 16]))
+            ms = t3_spec(rng, kind, derive(kind, pw))
+            nd = 16 * len(sel)
+            acts = [{"bit": (13 + nd) * 8 + rng.randrange(64)}]
+            if nd:
+                acts.append({"bit": 13 * 8 + rng.randrange(nd * 8)})
+            before = R.counters.get("mac_read_untampered_ok", 0)
+            sess = readmac_session({"exp": "read-mac", "ms": ms, "pw": pw, "blocks": sel, "mode": "bit"}, R, acts,
+                                   cache=False)
+            cls = ("zero-blocks" if not sel else "too-many-blocks" if len(sel) > 3 else
+                   "mac-or-key-block-in-list" if set(sel) & {0x81, 0x87, 0x91} else
+                   "unknown-block" if set(sel) & {0xFF, 0x0F} else
+                   "repeated-block" if len(set(sel)) < len(sel) else "system-block")
+            if sess.tag is not None and call(lambda: sess.tag.is_authenticated) == ("ret", True):
+                R.count("mac_edge_selection_reached/" + cls)
+            R.count("mac_edge_selection/%s/%s" % (cls, "data-returned" if R.counters.get("mac_read_untampered_ok", 0)
+                                                  > before else "nothing-returned"))
+
+
+# ---- whole transcripts -----------------------------------------------------------------------------------
+def w_transcript(R, rng, desc):
+    shard = desc["shard"]
+    for rep in range(desc.get("transcript", 1)):
+        for kind in ("lite", "lites", "ulc", (NTAGS + ULEV1)[(shard + rep) % 7]):
+            fam = family(kind)
+            pw = gen_password(rng, fam, "bytes", rng.choice([0, KEYLEN[fam], KEYLEN[fam] + 8]))
+            ms = spec_for(rng, kind, derive(fam, pw))
+            blocks = gen_blocks(rng, kind, rng.choice([1, 2, 3])) if fam in ("lite", "lites") else None
+            s0 = Sess(ms)
+            tag = s0.open()
+            if tag is None:
+                continue
+            s0.mitm.arm({})
+            ok = call(lambda: tag.authenticate(pw_bytes(pw)))
+            if blocks is not None:
+                call(lambda: tag.read_with_mac(*blocks))
+            record = [r for _c, r, _o in s0.mitm.trace]
+            if ok != ("ret", True) or any(r is None for r in record):
+                R.count("reference_authenticate_failed")
+                continue
+            okey, _rel = other_key(rng, fam, derive(fam, pw))
+            for victim in (dict(ms, key=okey), dict(ms)):
+                if "seed" in victim:
+                    victim["seed"] = victim["seed"] + 1          # (the Ultralight C model draws another RndB)
+                evaluate({"exp": "transcript", "ms": victim, "pw": pw, "record": record, "blocks": blocks,
+                          "mode": "replay"}, R)
+
+
+def w_fresh(R, rng, desc):
+    for kind in ("lite", "lites", "ulc"):
+        fam = family(kind)
+        pw = gen_password(rng, fam, "bytes", rng.choice([0, 16]))
+        evaluate({"exp": "fresh", "ms": spec_for(rng, kind, derive(fam, pw)), "pw": pw, "n": desc.get("fresh", 3)}, R)
+
+
+# ---- directed keys, passwords, challenges ----------------------------------------------------------------
+def nz(rng, n):
+    return bytes(rng.randrange(1, 255) for _ in range(n))
+
+
+def edge_keys_des(rng):
+    """16 byte keys with 00 / FF at the edges of the key halves, equal halves, all parity variants of 00.. / FF.."""
+    out = [("all-00", bytes(16)), ("all-ff", b"\xFF" * 16), ("all-01", b"\x01" * 16), ("all-fe", b"\xFE" * 16)]
+    k = nz(rng, 8)
+    out.append(("k1-eq-k2", k + k))
+    out.append(("k1-zero", bytes(8) + nz(rng, 8)))
+    out.append(("k2-zero", nz(rng, 8) + bytes(8)))
+    for pos in (0, 7, 8, 15):
+        for v in (0x00, 0xFF):
+            b = bytearray(nz(rng, 16))
+            b[pos] = v
+            out.append(("%02x-at-%d" % (v, pos), bytes(b)))
+    out.append(("high-bits", bytes(rng.randrange(0x80, 0x100) for _ in range(16))))
+    out.append(("whitespace-edges", b" " + nz(rng, 6) + b"\n" + b"\t" + nz(rng, 6) + b" "))
+    return out
+
+
+def edge_keys_pwd(rng):
+    """PWD[4] || PACK[2] of the NTAG21x / Ultralight EV1 scheme"""
+    return [("pwd-00-pack-0000", bytes(6)), ("pack-0000", nz(rng, 4) + b"\0\0"),
+            ("factory-pwd-other-pack", b"\xFF\xFF\xFF\xFF" + nz(rng, 2)), ("pack-like-nak-00", nz(rng, 4) + b"\x00" + nz(rng, 1)),
+            ("pack-like-nak-04", nz(rng, 4) + b"\x04" + nz(rng, 1)), ("pack-second-00", nz(rng, 4) + nz(rng, 1) + b"\0"),
+            ("pack-0a0a-like-ack", nz(rng, 4) + b"\x0A\x0A"), ("pwd-00-at-edges", b"\0" + nz(rng, 2) + b"\0" + nz(rng, 2)),
+            ("pwd-ff-pack-ffff", b"\xFF" * 6)]
+
+
+MAC_PATTERNS = ["z-first", "z-last", "z-all", "z-head4", "z-tail4", "ff-all", "ws-first", "ws-last", "ff-last"]
+
+
+def mac_pattern(rng, name):
+    b = bytearray(nz(rng, 8))
+    if name == "z-first":
+        b[0] = 0
+    elif name == "z-last":
+        b[7] = 0
+    elif name == "z-all":
+        b = bytearray(8)
+    elif name == "z-head4":
+        b[0:4] = bytes(4)
+    elif name == "z-tail4":
+        b[4:8] = bytes(4)
+    elif name == "ff-all":
+        b = bytearray(b"\xFF" * 8)
+    elif name == "ws-first":
+        b[0] = 0x0A
+    elif name == "ws-last":
+        b[7] = 0x20
+    elif name == "ff-last":
+        b[7] = 0xFF
+    return bytes(b)
+
+
+def edge_byte(name):
+    return 7 if name.endswith("last") or name == "z-tail4" else 0
+
+
+def w_directed(R, rng, desc):
+    """boundary values on purpose instead of by luck: keys / passwords with 00 and FF at the edges of the key halves,
+    K1 = K2, PACK 0000 and PACK values that look like a NAK, passwords of 17..32 bytes (24 = a three-key 3DES length),
+    non-ASCII str passwords, and - with a chosen challenge and chosen tag data - MACs that begin or end in 00 / FF /
+    white space or are all zero (felica_mac.solve_last_half), RndA / RndB of the Ultralight C handshake likewise"""
+    shard = desc["shard"]
+    reps = desc.get("directed", 1)
+    for rep in range(reps):
+        # (a) keys at the edges: the tag holds exactly that key / a key that differs in one bit of the edge byte
+        for kind in ("lite", "lites", "ulc", NTAGS[(shard + rep) % 5], ULEV1[(shard + rep) % 2]):
+            fam = family(kind)
+            des = fam in ("lite", "lites", "ulc")
+            for j, (name, key) in enumerate(edge_keys_des(rng) if des else edge_keys_pwd(rng)):
+                if des and (j + shard + rep) % 2:
+                    continue
+                ptype = ("bytes", "bytearray")[(j + rep) % 2]
+                evaluate({"exp": "auth", "ms": spec_for(rng, kind, key), "pw": key, "ptype": ptype,
+                          "rel": "edge-key/" + name}, R)
+                pos = int(name.rsplit("-", 1)[1]) if "-at-" in name and des else rng.choice([0, len(key) - 1])
+                miss = flip_bit(key, pos * 8 + rng.randrange(7))
+                evaluate({"exp": "auth", "ms": spec_for(rng, kind, miss), "pw": key, "ptype": ptype,
+                          "rel": "edge-key-near-miss/" + name}, R)
+        # (b) passwords longer than the key: only the first bytes are key material
+        for kind in ("lite", "lites", "ulc", NTAGS[(shard + rep + 1) % 5]):
+            fam = family(kind)
+            n = KEYLEN[fam]
+            lens = [17, 23, 24, 25, 31, 32] if n == 16 else [7, 8, 12, 16]
+            for length in (lens[(shard + rep) % len(lens)], lens[(shard + rep + 3) % len(lens)]):
+                ptype = rng.choice(["bytes", "bytearray"])
+                pw = rng.randbytes(length)
+                evaluate({"exp": "auth", "ms": spec_for(rng, kind, pw[:n]), "pw": pw, "ptype": ptype,
+                          "rel": "long-password/%d" % length}, R)
+                if canon(fam, pw[-n:]) != canon(fam, pw[:n]):
+                    evaluate({"exp": "auth", "ms": spec_for(rng, kind, pw[-n:]), "pw": pw, "ptype": ptype,
+                              "rel": "long-password-tail-held/%d" % length}, R)
+            if n == 16:
+                # protect -> authenticate with such a password and with a key at the edges
+                length = lens[(shard + rep + 1) % len(lens)]
+                pw = rng.randbytes(length)
+                ptype = ("bytes", "bytearray", "bytes")[(shard + rep) % 3]
+                evaluate({"exp": "protect", "ms": spec_for(rng, kind, FACTORY[fam]), "pw": pw, "ptype": ptype, "pf": 0,
+                          "others": protect_others(rng, fam, pw, derive(fam, pw)) + [[pw[-n:], "password-tail"]]}, R)
+                name, key = edge_keys_des(rng)[(shard + rep) % 17]
+                evaluate({"exp": "protect", "ms": spec_for(rng, kind, FACTORY[fam]), "pw": key, "ptype": "bytes", "pf": 0,
+                          "others": protect_others(rng, fam, key, key), "edge": name}, R)
+        # (c) str passwords that are not ASCII (latin-1 range, so that the bytes they could stand for are defined)
+        for kind in ("lite", "lites"):
+            pw = "".join(chr(rng.choice([rng.randrange(0x20, 0x7F), rng.randrange(0xA0, 0x100)])) for _ in range(15)) + "\xe9"
+            held = (rng.random() < 0.5)
+            key = pw_bytes(pw) if held else other_key(rng, kind, pw_bytes(pw))[0]
+            evaluate({"exp": "auth", "ms": t3_spec(rng, kind, key), "pw": pw, "ptype": "str",
+                      "rel": "non-ascii-str/" + ("same" if held else "other")}, R)
+        evaluate({"exp": "protect", "ms": t3_spec(rng, "lites", FACTORY["lites"], msg=b"", ndef=True), "pw": pw,
+                  "ptype": "str", "pf": 0, "others": protect_others(rng, "lites", pw, pw_bytes(pw)[:16])}, R)
+        # (d) chosen challenge + chosen free half of the ID block: the MAC that decides authenticate() has the pattern
+        for j, name in enumerate(MAC_PATTERNS):
+            if (j + shard + rep) % 3:
+                continue
+            for kind in ("lite", "lites"):
+                pw = gen_password(rng, kind, "bytes", rng.choice([0, 16]))
+                ms = t3_spec(rng, kind, derive(kind, pw))
+                rc = rng.randbytes(16)
+                target = mac_pattern(rng, name)
+                ck, rcb = halves_reversed(ms["key"]), halves_reversed(rc)
+                half = felica_mac.solve_last_half(ck, rcb, ms["idm"], target)
+                if felica_mac.mac(ck, rcb, ms["idm"] + half) != target:
+                    R.inconc("directed: the reference MAC solver does not reproduce its target")
+                    continue
+                ms["set"] = [[0x82, ms["idm"] + half]]
+                evaluate({"exp": "auth", "ms": ms, "pw": pw, "ptype": "bytes", "rel": "mac-pattern/" + name,
+                          "challenge": [rc], "target_mac": target}, R)
+                # the same exchange with a bit of the edge byte of that MAC changed on the air
+                evaluate({"exp": "auth-tamper", "ms": ms, "pw": pw, "mode": "bit", "challenge": [rc],
+                          "tamper": {"at": 1, "bit": (29 + edge_byte(name)) * 8 + rng.randrange(8)}}, R)
+                # ... and read_with_mac of blocks whose MAC has the pattern
+                sel = [rng.randrange(1, 14) for _ in range(rng.choice([1, 2]))]
+                ms2 = t3_spec(rng, kind, derive(kind, pw))
+                m2 = build_model(ms2)
+                data = bytearray(b"".join(m2.get_block(n) for n in sel))
+                if sel.count(sel[-1]) > 1:
+                    continue
+                ck = halves_reversed(ms2["key"])
+                data[-8:] = felica_mac.solve_last_half(ck, rcb, bytes(data[:-8]), target)
+                ms2["set"] = [[sel[-1], bytes(data[-16:])]]
+                nd = 16 * len(sel)
+                acts = [{"bit": (13 + nd + edge_byte(name)) * 8 + rng.randrange(8)}, {"bit": 13 * 8 + rng.randrange(nd * 8)}]
+                before = R.counters.get("mac_read_untampered_ok", 0)
+                with recorded_challenges([rc]):
+                    sess = readmac_session({"exp": "read-mac", "ms": ms2, "pw": pw, "blocks": sel, "mode": "bit",
+                                            "challenge": [rc]}, R, acts, cache=False)
+                if sess.challenges()[:1] == [rc] and R.counters.get("mac_read_untampered_ok", 0) > before:
+                    R.count("mac_pattern_read_ok")
+                    R.count("mac_pattern_read_ok/" + name)
+        # (e) Ultralight C: RndA (reader, forced) and RndB (tag model) at the edges
+        for j, name in enumerate(["z-first", "z-last", "z-all", "ff-all", "rotation-invariant", "z-head4"]):
+            if (j + shard + rep) % 2:
+                continue
+            for which in ("rnda", "rndb"):
+                v = bytes([0x5A] * 8) if name == "rotation-invariant" else mac_pattern(rng, name)
+                pw = gen_password(rng, "ulc", "bytes", rng.choice([0, 16]))
+                held = rng.random() < 0.7
+                key = derive("ulc", pw) if held else other_key(rng, "ulc", derive("ulc", pw))[0]
+                ms = t2_spec(rng, "ulc", key)
+                case = {"exp": "auth", "ms": ms, "pw": pw, "ptype": "bytes",
+                        "rel": "ulc-challenge/%s-%s%s" % (which, name, "" if held else "/other-key")}
+                if which == "rnda":
+                    case["challenge"] = [v]
+                else:
+                    ms["rndb"] = v
+                evaluate(case, R)
+
+
+# ---- protect with read protection, Type 2 tags that are protected already --------------------------------------
+LOCKED_T2 = [  # (kind class, AUTH0, PROT, authenticate with the held key first)
+    ("ntag", 4, False, True), ("ntag", 4, True, True), ("ntag", 3, True, False), ("ulev1", 4, True, True),
+    ("ulc", 4, True, True), ("ulc", 3, False, True), ("ulc", 4, True, False), ("ntag", 0, True, True),
+    ("ulev1", 16, False, False),
+]
+
+
+def w_protect_rp(R, rng, desc):
+    shard = desc["shard"]
+    for rep in range(desc.get("protect_rp", 1)):
+        for kind in ("lite", "lites", NTAGS[(shard + rep) % 5], ULEV1[(shard + rep) % 2], "ulc"):
+            fam = family(kind)
+            n = KEYLEN[fam]
+            for prior in (("factory", "issuer")[(shard + rep) % 2],) if kind != "lites" else ("factory", "issuer"):
+                ptype = ("bytes", "bytearray")[(shard + rep + len(kind)) % 2]
+                pw = gen_password(rng, fam, ptype, rng.choice([n, n, n + 4, 0]) if not (kind == "lites" and
+                                                                                      prior == "issuer") else n + 8)
+                key = derive(fam, pw)
+                while True:
+                    prior_key = FACTORY[fam] if prior == "factory" else rng.randbytes(n)
+                    if prior == "factory" or canon(fam, prior_key) not in (canon(fam, key), canon(fam, FACTORY[fam])):
+                        break
+                ms = spec_for(rng, kind, prior_key, msg=rng.randbytes(rng.choice([0, 7, 40])), ndef=True) \
+                    if kind in ("lite", "lites") else spec_for(rng, kind, prior_key)
+                pf = rng.choice([0, 2, 4] if kind in ("lite", "lites") else [0, 3, 4, 8])
+                evaluate({"exp": "protect", "ms": ms, "pw": pw, "ptype": ptype, "pf": pf, "rp": 1, "prior": prior,
+                          "others": protect_others(rng, fam, pw, key, prior_key if prior == "issuer" else None)}, R)
+        # Type 2 tags whose AUTH0 / PROT are set already and that hold another key
+        for k in range(3):
+            cls, auth0, prot, pre_auth = LOCKED_T2[(3 * (shard + rep) + k) % len(LOCKED_T2)]
+            kind = {"ntag": NTAGS[(shard + rep + k) % 5], "ulev1": ULEV1[(shard + rep + k) % 2], "ulc": "ulc"}[cls]
+            fam = family(kind)
+            n = KEYLEN[fam]
+            pw = gen_password(rng, fam, "bytes", rng.choice([n, n + 2, 0]))
+            key = derive(fam, pw)
+            while True:
+                prior_key = rng.randbytes(n)
+                if canon(fam, prior_key) not in (canon(fam, key), canon(fam, FACTORY[fam])):
+                    break
+            ms = dict(spec_for(rng, kind, prior_key), auth0=auth0, prot=prot)
+            evaluate({"exp": "protect", "ms": ms, "pw": pw, "ptype": "bytes", "pf": rng.choice([0, 4]),
+                      "rp": int(rng.random() < 0.5), "prior": "locked", "pre_auth": pre_auth,
+                      "locked": "%s-auth0-%d-%s" % (cls, auth0, "prot" if prot else "write-only"),
+                      "others": protect_others(rng, fam, pw, key, prior_key)}, R)
+
+
 def run(desc, R, rng):
+    recs = install_recorders()
+    for rec in recs.values():
+        del rec.values[:]
     felica = ["lite", "lites"]
     w_auth(R, rng, felica, desc["auth_felica"])
     w_auth(R, rng, list(NTAGS + ULEV1), desc["auth_ntag"])
@@ -2302,3 +3340,10 @@ def run(desc, R, rng):
     w_protect(R, rng, desc)
     w_protect_prior(R, rng, desc)
     w_order(R, rng, desc)
+    w_hist(R, rng, desc)
+    w_read_edges(R, rng, desc)
+    w_transcript(R, rng, desc)
+    w_fresh(R, rng, desc)
+    w_directed(R, rng, desc)
+    w_protect_rp(R, rng, desc)
+    shard_freshness(R, recs)
